@@ -817,6 +817,8 @@ UNITS["v_op_types"] = dict(
         ensures=[
             ty_clause("self.opcode is Add || self.opcode is Sub || self.opcode is Mul", "for + - *: every result the runtime helper can produce for operands of the operands' kinds belongs to the reported kind, and if the helper can fail on some such operands (other than the NaN case) the expression is typed fallible", "C01.op.arith_sound"),
             ty_clause("self.opcode is Eq || self.opcode is Ne || self.opcode is Gt || self.opcode is Ge || self.opcode is Lt || self.opcode is Le", "for comparisons: the result kind contains boolean and incomparable operand kinds make the expression fallible", "C01.op.compare_sound"),
+            ("C02.op.infallible_means_helper_cannot_fail", "an eager operator typed infallible: for all operands of the operand kinds the runtime helper cannot return a type error (only the documented NaN case)",
+             "(self.opcode is Add || self.opcode is Sub || self.opcode is Mul || self.opcode is Eq || self.opcode is Ne || self.opcode is Gt || self.opcode is Ge || self.opcode is Lt || self.opcode is Le) && !r.result.fall@ ==> forall|a: int, b: int| #![trigger op_table(self.opcode, a, b)] self.lhs.spec_type(*state).m@.contains(a) && self.rhs.spec_type(self.lhs.spec_state(*state)).m@.contains(b) ==> !(op_table(self.opcode, a, b) is Err)"),
             ("C02.op.operand_fallibility", "an eager operator whose operand is fallible is fallible",
              "(self.opcode is Add || self.opcode is Sub || self.opcode is Mul || self.opcode is Eq || self.opcode is Ne || self.opcode is Gt || self.opcode is Ge || self.opcode is Lt || self.opcode is Le) && (self.lhs.spec_type(*state).fall@ || self.rhs.spec_type(self.lhs.spec_state(*state)).fall@) ==> r.result.fall@"),
             ("C02.op.div_infallible_only_safe", "`/` is typed infallible only when the divisor is a compile-time constant that is a non-zero integer or a normal float and the dividend can only be an integer or a float; its kind is float",
@@ -829,4 +831,36 @@ UNITS["v_op_types"] = dict(
         ],
         safety_id="C01.op_type_info.safety", safety_text="`unreachable!(...)` arms are unreachable",
     )],
+)
+
+UNITS["v_control_types"] = dict(
+    prop=["C01", "C02"], tier="q", prelude=["optypes.rs"],
+    fns=[
+        dict(id="if_type_info", file=EXPR + "if_statement.rs", impl="impl Expression for IfStatement", name="type_info",
+             orig_sig="fn type_info(&self, state: &TypeState) -> TypeInfo",
+             wrap=("impl IfStatement {", "}"), sig="pub fn type_info(&self, state: &TypeState) -> (r: TypeInfo)",
+             rewrites=[dict(**{"from": r"result\s*\.returns_mut\(\)\s*\.merge_keep\(predicate_info\.returns\(\)\.clone\(\), false\);", "to": "result.returns_merge_keep(predicate_info.returns().clone());", "regex": True, "count": 2, "why": "returns_mut().merge_keep(..) composed: only the returns component changes"})],
+             ensures=[
+                 ("C01.if.with_else", "`if/else` admits every value of either branch and is fallible iff a branch is",
+                  "self.else_block is Some ==> ({ let s1 = self.predicate.inner.spec_state(*state); let a = self.if_block.spec_type(s1); let b = self.else_block->Some_0.spec_type(s1); a.m@.union(b.m@).subset_of(r.result.m@) && r.result.fall@ == (a.fall@ || b.fall@) })"),
+                 ("C01.if.without_else", "`if` without else admits every value of the branch and null (the value when the predicate is false)",
+                  "self.else_block is None ==> ({ let s1 = self.predicate.inner.spec_state(*state); let a = self.if_block.spec_type(s1); a.m@.subset_of(r.result.m@) && r.result.m@.contains(NULL) && r.result.fall@ == a.fall@ })"),
+                 ("C02.if.infallible_means_branches_infallible", "an `if` typed infallible has only infallible branches (the predicate is checked to be an infallible boolean when the node is built)",
+                  "!r.result.fall@ ==> ({ let s1 = self.predicate.inner.spec_state(*state); !self.if_block.spec_type(s1).fall@ && (self.else_block is Some ==> !self.else_block->Some_0.spec_type(s1).fall@) })"),
+                 ("C01.if.returns", "a `return` inside the predicate or a branch is part of the reported return type",
+                  "({ let s1 = self.predicate.inner.spec_state(*state); self.predicate.inner.spec_type(*state).spec_returns().subset_of(r.result.spec_returns()) })"),
+             ],
+             safety_id="C01.if_type_info.safety"),
+        dict(id="not_type_info", file=EXPR + "not.rs", impl="impl Expression for Not", name="type_info",
+             orig_sig="fn type_info(&self, state: &TypeState) -> TypeInfo",
+             wrap=("impl Not {", "}"), sig="pub fn type_info(&self, state: &TypeState) -> (r: TypeInfo)",
+             ensures=[("C01.not.boolean", "`!e` is boolean, fallible exactly when e is, and keeps e's return type",
+                       "r.result.m@ == set![BOOLEAN] && r.result.fall@ == self.inner.spec_type(*state).fall@ && r.result.spec_returns() == self.inner.spec_type(*state).spec_returns()")],
+             safety_id="C01.not_type_info.safety"),
+        dict(id="not_type_info_c02", file=EXPR + "not.rs", impl="impl Expression for Not", name="type_info",
+             orig_sig="fn type_info(&self, state: &TypeState) -> TypeInfo",
+             wrap=("impl Not {", "}"), sig="pub fn type_info_c02(&self, state: &TypeState) -> (r: TypeInfo)",
+             ensures=[("C02.not.infallible_means_operand_infallible", "`!e` typed infallible has an infallible operand", "!r.result.fall@ ==> !self.inner.spec_type(*state).fall@")],
+             safety_id="C02.not_type_info.safety"),
+    ],
 )
